@@ -68,6 +68,14 @@ def main():
                 events.append({"op": "dead", "s": s, "d": "", "req": "", "agg": False, "rk": "", "rc": [], "rn": 0})
             del pending_dead[:]
 
+        def sync_dead():
+            """inside a weakref callback / finalizer run by the collector: the collector clears the weak
+            references to *all* garbage before it calls any callback, so every tracked object whose weak
+            reference is already dead is dead for the program, whether its own callback has run or not"""
+            flush_dead()
+            for s in sorted([s for s, w in wrs.items() if w() is None], reverse=True):
+                report_dead_now(s)
+
         def describe(ct, emit=True):
             """-> (serial, description); emits obtain events for the components first"""
             k = ct.kind
@@ -247,6 +255,7 @@ def main():
 
                 def usercb(_wr, s=s, inner=op[2]):
                     report_dead_now(s)
+                    sync_dead()
                     fired.append(1)
                     for iop in inner:
                         try:
@@ -273,7 +282,7 @@ def main():
 
                 class Fin(object):
                     def __del__(self, resurrect=op[2], inner=op[3], r2=op[4]):
-                        flush_dead()            # the collector has already cleared the weak references
+                        sync_dead()             # the collector has already cleared the weak references
                         for iop in inner:
                             try:
                                 do(iop)
